@@ -267,6 +267,16 @@ package jsonschema
 // schema.go
 // ---------------------------------------------------------------------------
 
+//@ contract (*Schema).CloneSchemas(s)
+//@   nilrecv
+//@   pure
+//@   ensures (s == nil) == (result == nil)
+//@   ensures result != nil ==> fresh(result)
+
+//@ contract falseSchema()
+//@   pure
+//@   ensures result != nil && fresh(result)
+
 //@ contract (*Schema).basicChecks(s)
 //@   pure
 //@   ensures[C19,C10] nodup: result == nil ==> (forall i int, j int {s.PropertyOrder[i], s.PropertyOrder[j]} :: 0 <= i && i < j && j < len(s.PropertyOrder) ==> s.PropertyOrder[i] != s.PropertyOrder[j])
@@ -274,3 +284,20 @@ package jsonschema
 //@   loop "range s.PropertyOrder"
 //@     invariant seen: new(propertyOrderSeen) && (forall k string {has(propertyOrderSeen, k)} :: has(propertyOrderSeen, k) <==> (exists i int :: 0 <= i && i <= $idx && s.PropertyOrder[i] == k))
 //@     invariant distinct: forall i int, j int {s.PropertyOrder[i], s.PropertyOrder[j]} :: 0 <= i && i < j && j <= $idx ==> s.PropertyOrder[i] != s.PropertyOrder[j]
+
+// ---------------------------------------------------------------------------
+// infer.go
+// ---------------------------------------------------------------------------
+
+//@ contract forType(t, seen, ignore, schemas)
+//@   requires new(seen) && schemas != nil
+//@   modifies seen.entries
+//@   isolated Schema
+//@   ensures[C16,C10] fresh: result0 != nil ==> fresh(result0)
+//@   ensures[C16,C10] total: !ignore && result1 == nil ==> result0 != nil
+//@   loopinv n1: new(s) && fresh(s)
+//@   loopinv n2: s.Properties == nil || fresh(s.Properties)
+//@   loopinv n3: isnil(s.PropertyOrder) || fresh(s.PropertyOrder)
+//@   loopinv n4: isnil(s.Required) || fresh(s.Required)
+//@   loop "for i >= 0"
+//@     invariant idx: i < len(s.PropertyOrder)
